@@ -10,7 +10,7 @@ run) is preserved.  The path `p` addresses an opened bucket (`bkAt p cur`); its 
 import Bolt.Model.BktInv
 import Bolt.Lemmas.BktOps
 namespace Bolt.C04Bkt
-open Bolt Bolt.BTree Bolt.Bkt
+open Bolt Bolt.BTree Bolt.Bkt Bolt.Bkt.BktOpsL
 
 def apiPath (p : List Bytes) : List Bytes := topName :: p
 
@@ -19,12 +19,13 @@ def orOld (r : Except ApiErr SVal) (old : SVal) : SVal := match r with | .ok v =
 
 /-- the state a transaction starts with is well-formed -/
 theorem start_wf (fu : Nat) (orig : Bk) (h : origOk fu orig = true) : WF fu orig (closeAll orig) := by
-  sorry
+  exact ⟨h, curOk_closeAll orig fu [] orig h rfl⟩
 
 /-- … and its content is the content of the file -/
 theorem start_abs (fu : Nat) (orig : Bk) (h : origOk fu orig = true) :
     absTop fu orig (closeAll orig) = absTop fu orig orig := by
-  sorry
+  unfold absTop
+  rw [abs_closeAll true orig fu fu [] orig h rfl]
 
 /-- `Bucket.Bucket(name)` changes nothing but the cache; it returns nil exactly when the
     reference model has no bucket of that name there -/
@@ -35,7 +36,20 @@ theorem open_refines (fu : Nat) (orig cur : Bk) (p : List Bytes) (name : Bytes) 
         (bkAt (p ++ [name]) cur').isSome ∧
         (bucketAt (apiPath p ++ [name]) (absTop fu orig cur)).isSome
     | none => (bucketAt (apiPath p ++ [name]) (absTop fu orig cur)).isNone := by
-  sorry
+  obtain ⟨ho, hc⟩ := hw
+  obtain ⟨f, hfu, hcb, hba, hmod, hnone, _, hself⟩ := frame fu orig cur p b hc hb
+  have hs := inTx_sorted ((curOk_succ ..).mp hcb).1
+  have hchild := bucketAt_child (subV orig f p b.opened) (subV_isBkt _ _ _ _) (absTop fu orig cur)
+    (topName :: p) b.seq hs name hba
+  rcases open_local orig fu f fu p b name ho hfu hcb (by omega) with
+    ⟨e, hn⟩ | ⟨b', e, hn, hcb', hseq, hents, hlk⟩
+  · rw [hnone _ e]
+    exact hchild.2 hn
+  · obtain ⟨cur', hm, hc', hb', habs⟩ := hmod _ b' e hcb'
+    rw [hm]
+    refine ⟨⟨ho, hc'⟩, ?_, ?_, hchild.1 hn⟩
+    · rw [habs, hseq, hents]; exact hself
+    · rw [bkAt_snoc name hb']; exact hlk
 
 /-- `Bucket.Put` -/
 theorem put_refines (fu : Nat) (orig cur : Bk) (p : List Bytes) (k v : Bytes) (b : Bk)
@@ -43,14 +57,37 @@ theorem put_refines (fu : Nat) (orig cur : Bk) (p : List Bytes) (k v : Bytes) (b
     (hk : k ≠ []) (hkl : k.length ≤ maxKeySize) (hvl : v.length ≤ maxValueSize) :
     ∃ cur', modifyBk (putAt fu k v) p cur = some cur' ∧ WF fu orig cur' ∧
       absTop fu orig cur' = orOld (apiPut (absTop fu orig cur) (apiPath p) k v) (absTop fu orig cur) := by
-  sorry
+  obtain ⟨ho, hc⟩ := hw
+  obtain ⟨f, hfu, hcb, hba, hmod, _, _, hself⟩ := frame fu orig cur p b hc hb
+  obtain ⟨b', e, hcb', hseq, hents⟩ := put_local orig fu f p b k v hcb (by omega) hk
+  obtain ⟨cur', hm, hc', _, habs⟩ := hmod _ b' e hcb'
+  refine ⟨cur', hm, ⟨ho, hc'⟩, ?_⟩
+  unfold apiPath
+  rw [habs, hseq, hents, apiPut_abs (subV orig f p b.opened) (subV_isBkt _ _ _ _) _ p b.seq (flatten b.tree)
+    k v hba hk hkl hvl]
+  cases hbk : isBucketAt (flatten b.tree) k with
+  | true => rw [specPut_refused _ _ _ hbk]; exact hself
+  | false => rfl
 
 /-- `Bucket.Delete` -/
 theorem del_refines (fu : Nat) (orig cur : Bk) (p : List Bytes) (k : Bytes) (b : Bk)
     (hw : WF fu orig cur) (hb : bkAt p cur = some b) :
     ∃ cur', modifyBk (delAt fu k) p cur = some cur' ∧ WF fu orig cur' ∧
       absTop fu orig cur' = orOld (apiDelete (absTop fu orig cur) (apiPath p) k) (absTop fu orig cur) := by
-  sorry
+  obtain ⟨ho, hc⟩ := hw
+  obtain ⟨f, hfu, hcb, hba, hmod, _, _, hself⟩ := frame fu orig cur p b hc hb
+  obtain ⟨b', e, hcb', hseq, hents⟩ := del_local orig fu f p b k hcb (by omega)
+  obtain ⟨cur', hm, hc', _, habs⟩ := hmod _ b' e hcb'
+  refine ⟨cur', hm, ⟨ho, hc'⟩, ?_⟩
+  unfold apiPath
+  rw [habs, hseq, hents, apiDelete_abs (subV orig f p b.opened) (subV_isBkt _ _ _ _) _ p b.seq (flatten b.tree)
+    k hba]
+  cases hbk : isBucketAt (flatten b.tree) k with
+  | true => rw [specDel_refused _ _ hbk]; exact hself
+  | false =>
+    cases hfi : (flatten b.tree).find? (fun i => i.key == k) with
+    | none => rw [specDel_missing _ _ hfi]; exact hself
+    | some i => rfl
 
 /-- `Bucket.CreateBucket`: refused exactly when the reference model refuses; else the same new
     content (an empty bucket with sequence 0), opened -/
@@ -61,7 +98,18 @@ theorem create_refines (fu : Nat) (orig cur : Bk) (p : List Bytes) (name : Bytes
         apiCreateBucket (absTop fu orig cur) (apiPath p) name false = .ok (absTop fu orig cur') ∧
         (bkAt (p ++ [name]) cur').isSome
     | none => ∃ e, apiCreateBucket (absTop fu orig cur) (apiPath p) name false = .error e := by
-  sorry
+  obtain ⟨ho, hc⟩ := hw
+  obtain ⟨f, hfu, hcb, hba, hmod, hnone, _, _⟩ := frame fu orig cur p b hc hb
+  have hapi := apiCreate_abs (subV orig f p b.opened) (absTop fu orig cur) p b.seq (flatten b.tree) name hba
+  rcases create_local orig fu f p b name hcb (by omega) (by omega) with
+    ⟨e, hr⟩ | ⟨b', e, hn, hfind, hcb', hseq, hents, hlk⟩
+  · rw [hnone _ e]
+    exact hapi.2 hr
+  · obtain ⟨cur', hm, hc', hb', habs⟩ := hmod _ b' e hcb'
+    rw [hm]
+    refine ⟨⟨ho, hc'⟩, ?_, ?_⟩
+    · rw [habs, hseq, hents]; exact hapi.1 hn hfind
+    · rw [bkAt_snoc name hb']; exact hlk
 
 /-- `Bucket.DeleteBucket`: refused exactly when the reference model refuses; else the bucket
     is gone with everything nested in it -/
@@ -71,13 +119,31 @@ theorem deleteBucket_refines (fu : Nat) (orig cur : Bk) (p : List Bytes) (name :
     | some cur' => WF fu orig cur' ∧
         apiDeleteBucket (absTop fu orig cur) (apiPath p) name = .ok (absTop fu orig cur')
     | none => ∃ e, apiDeleteBucket (absTop fu orig cur) (apiPath p) name = .error e := by
-  sorry
+  obtain ⟨ho, hc⟩ := hw
+  obtain ⟨f, hfu, hcb, hba, hmod, hnone, _, _⟩ := frame fu orig cur p b hc hb
+  have hapi := apiDeleteBucket_abs (subV orig f p b.opened) (subV_isBkt _ _ _ _) (absTop fu orig cur) p b.seq
+    (flatten b.tree) name hba
+  rcases delete_local orig fu f p b name hcb (by omega) with
+    ⟨e, hr⟩ | ⟨b', i, e, hfind, hfl, hcb', hseq, hents⟩
+  · rw [hnone _ e]
+    exact hapi.2 hr
+  · obtain ⟨cur', hm, hc', _, habs⟩ := hmod _ b' e hcb'
+    rw [hm]
+    refine ⟨⟨ho, hc'⟩, ?_⟩
+    rw [habs, hseq, hents]; exact hapi.1 i hfind hfl
 
 /-- `Bucket.SetSequence` -/
 theorem setSeq_refines (fu : Nat) (orig cur : Bk) (p : List Bytes) (n : Nat) (b : Bk)
     (hw : WF fu orig cur) (hb : bkAt p cur = some b) :
     ∃ cur', modifyBk (setSeqAt n) p cur = some cur' ∧ WF fu orig cur' ∧
       apiSetSequence (absTop fu orig cur) (apiPath p) n = .ok (absTop fu orig cur') := by
-  sorry
+  obtain ⟨ho, hc⟩ := hw
+  obtain ⟨f, hfu, hcb, hba, hmod, _, _, _⟩ := frame fu orig cur p b hc hb
+  obtain ⟨b', e, hcb', hseq, hents⟩ := setSeq_local orig f p b n hcb
+  obtain ⟨cur', hm, hc', _, habs⟩ := hmod _ b' e hcb'
+  refine ⟨cur', hm, ⟨ho, hc'⟩, ?_⟩
+  unfold apiSetSequence apiPath
+  rw [hba, habs, hseq, hents]
+  rfl
 
 end Bolt.C04Bkt
